@@ -4,7 +4,7 @@
   Property theorems over `Model/H2Relay.lean`, for every schedule of frames from both endpoints and
   every map-iteration order.  Helper lemmas: `Lemmas/H2Split.lean` (splitting), `H2Fifo.lean`
   (per-stream FIFO), `H2Flow.lean` (gate, no stranding), `H2Machine.lean` (whole schedules),
-  `H2Order.lean` (reader loop).
+  `H2Order.lean` (reader loop), `H2Drain.lean` (whole-connection drain).
 
   Fidelity is stated in two layers.  (1) `c10_fifo`: for every stream of either direction, the frames
   released so far followed by the frames still queued are exactly the frames the relay built for
@@ -15,6 +15,7 @@
 -/
 import FwdVerif.Lemmas.H2Encode
 import FwdVerif.Lemmas.H2Size
+import FwdVerif.Lemmas.H2Drain
 
 namespace FwdVerif
 namespace C10
@@ -57,6 +58,157 @@ theorem c10_drain_stream (d : Dir α) (s : Nat) (st : Stream α) (hs : d.streams
 /-- every scan (`sendQueuedFramesUnderWindowSize`) ends with nothing that fits left queued,
     whatever the state it starts from and whatever order Go's map iteration takes -/
 theorem c10_scan_maximal (d : Dir α) (order : List Nat) : AllStuck (d.pass order).1 := AllStuck.pass d order
+
+/-! ### whole-connection drain
+
+  A direction is named by the side that sends on it (`Relay.dir`: `.client` = client→server); its
+  receiver is `side.other`, whose frames — WINDOW_UPDATE among them — are read by the opposite relay
+  `dir side.other`.  `releasedOn side trace` are the queued frames a trace of `Relay.run` released
+  on the direction, in writer order.
+
+  The model, like `updateWindow` in relay.go, adds increments to `int` windows without any upper
+  bound check (RFC 7540 §6.9.1 wants FLOW_CONTROL_ERROR above 2³¹−1): no overflow guard is needed
+  for the statements below, and none would be truthful.  What *is* needed is that the relay still
+  reads the receiver's frames (`readerReady`): `c10_drain_reader_guard_witness`. -/
+
+/-- the hypothesis of `c10_drain_connection` on the update list (decidable): only WINDOW_UPDATE
+    frames sent by the receiver of the direction, increments in 1 … 2³¹−1, in any order and any
+    split, whose totals cover what is queued on the direction `d`:
+    connection   Σ over the buffers of the flow-controlled octets queued  ≤ connWin + Σ increments on stream 0
+    stream `s` with a non-empty queue   octets queued on `s`  ≤ win s + Σ increments on `s`
+    (a non-empty queue of zero-cost frames behind a negative window needs the window back at 0) -/
+def Grants (d : Dir α) (side : Side) (ups : List (Ev α)) : Prop :=
+  grantsOnly side ups = true ∧ Sufficient d (grantOn side 0 ups) (fun s => grantOn side s ups)
+
+instance (d : Dir α) (side : Side) (ups : List (Ev α)) : Decidable (Grants d side ups) := by
+  unfold Grants; exact inferInstance
+
+/-- what the three drain theorems conclude about direction `side` after `evs ++ sfx`:
+    every queue is empty; per stream, the frames released during `sfx` are exactly the frames that
+    were queued after `evs`, in order; and (with `c10_fifo`) everything ever built for a stream has
+    been released -/
+def DrainedAfter (evs sfx : List (Ev α)) (side : Side) : Prop :=
+  (∀ s, ((after (evs ++ sfx)).1.dir side).queueOf s = []) ∧
+  (∀ s, onStream s (releasedOn side (Relay.run (after evs).1 sfx).2) =
+        ((after evs).1.dir side).queueOf s) ∧
+  (∀ s, ((after (evs ++ sfx)).2.hist side).out s = ((after (evs ++ sfx)).2.hist side).enq s)
+
+/-- **eventual delivery, any fair suffix** (the general form).  After any schedule `evs`, let `sfx`
+    be any continuation in which the sender of the direction sends nothing that goes through a queue
+    (`quietFor`: it may send WINDOW_UPDATE, SETTINGS, PING, GOAWAY … — they act on the other
+    direction) and the receiver sends *anything*: its own DATA and header blocks, PING, SETTINGS,
+    WINDOW_UPDATE on the connection and on streams in any order and split, under any map iteration
+    orders.  If the credit the relay gets out of `sfx` covers what is queued, the direction drains.
+    The credit is (`Relay.connCredit`, `Relay.streamCredit`): the increments of the WINDOW_UPDATE
+    frames the receiver's reader loop *processes* (`readOps`: none once that loop has ended, and a
+    frame out of the Framer's order ends it) and, on streams, the net change of
+    SETTINGS_INITIAL_WINDOW_SIZE over `sfx` (a decrease takes credit back:
+    `c10_fair_suffix_settings_witness`). -/
+theorem c10_eventual_delivery_any_fair_suffix (evs sfx : List (Ev α)) (side : Side)
+    (hq : quietFor side sfx = true)
+    (hc : Sufficient ((after evs).1.dir side) ((after evs).1.connCredit side sfx)
+            ((after evs).1.streamCredit side sfx)) :
+    DrainedAfter evs sfx side := by
+  have hinv := (RInv.init (α := α)).run evs
+  have hd := drain_of_quiet hinv side sfx hq hc
+  have hnil : ∀ s, ((after (evs ++ sfx)).1.dir side).queueOf s = [] := by
+    intro s; rw [show (after (evs ++ sfx)).1 = _ from Relay.runG_append_fst {} {} evs sfx]; exact hd.1 s
+  refine ⟨hnil, hd.2, ?_⟩
+  intro s
+  have := (((RInv.init (α := α)).run (evs ++ sfx)).dir side).fifo.split s
+  have hn := hnil s
+  unfold after at hn
+  rw [hn, List.append_nil] at this
+  exact this
+
+/-- **whole-connection drain** (T1).  For every schedule `evs` and each direction: if the relay still
+    reads the receiver's frames and is not inside one of its header blocks, and the receiver then
+    sends WINDOW_UPDATE frames — any order, any split into increments, connection and streams
+    interleaved arbitrarily, any map iteration orders — whose totals cover what is queued
+    (`Grants`), then after `evs ++ ups` every queue of the direction is empty and each stream's queue
+    went out during `ups`, whole and in order. -/
+theorem c10_drain_connection (evs ups : List (Ev α)) (side : Side)
+    (hr : ((after evs).1.dir side.other).readerReady)
+    (hu : Grants ((after evs).1.dir side) side ups) :
+    DrainedAfter evs ups side := by
+  have hcr := credit_of_updates (after evs).1 side ups hr hu.1
+  exact c10_eventual_delivery_any_fair_suffix evs ups side (grantsOnly_quiet side ups hu.1)
+    (hu.2.congr hcr.1.symm (fun s => (hcr.2 s).symm))
+
+/-- **eventual delivery, interleaved** (the guarded form of the previous theorem, with the exceptions
+    spelled out).  `c10_drain_connection` also holds when the WINDOW_UPDATE frames are interleaved
+    with arbitrary further frames of the receiver — its own DATA, header blocks, PING, SETTINGS … —
+    and with frames of the sender that go through no queue, *except* (`fairFrom`, decidable):
+    the receiver's frames must pass the Framer's order check and be of a known type (otherwise the
+    relay stops reading them, F38/F39, and with them all later credit), and its SETTINGS frames
+    must not set SETTINGS_INITIAL_WINDOW_SIZE (that changes every stream window of this direction:
+    the previous theorem accounts for it, `c10_fair_suffix_settings_witness` shows it matters).
+    The totals are those of all WINDOW_UPDATE frames of the receiver in `sfx`. -/
+theorem c10_eventual_delivery_interleaved (evs sfx : List (Ev α)) (side : Side)
+    (hr : ((after evs).1.dir side.other).readerReady)
+    (hf : fairFrom side none sfx = true)
+    (hc : Sufficient ((after evs).1.dir side) (grantOn side 0 sfx) (fun s => grantOn side s sfx)) :
+    DrainedAfter evs sfx side := by
+  have hcr := credit_of_fair (after evs).1 side sfx hr hf
+  exact c10_eventual_delivery_any_fair_suffix evs sfx side (fairFrom_spec side sfx none hf).1
+    (hc.congr hcr.1.symm (fun s => (hcr.2 s).symm))
+
+/-- **nothing is sent without credit** (stream; T1's hypothesis is tight): whatever state the
+    reader loops are in, if the WINDOW_UPDATE frames do not cover the queue of stream `s`, stream `s`
+    still has something queued at the end -/
+theorem c10_drain_needs_stream_credit (evs ups : List (Ev α)) (side : Side) (hu : grantsOnly side ups = true)
+    (s : Nat) (hq : ((after evs).1.dir side).queueOf s ≠ [])
+    (hlt : (((after evs).1.dir side).buf s).win + grantOn side s ups < fcSum (((after evs).1.dir side).queueOf s)) :
+    ((after (evs ++ ups)).1.dir side).queueOf s ≠ [] := by
+  rw [show (after (evs ++ ups)).1 = _ from Relay.runG_append_fst {} {} evs ups]
+  exact starved_of_updates side ups hu s hq hlt
+
+/-- **nothing is sent without credit** (connection): in any continuation that enqueues nothing, if
+    the connection-level increments sent do not cover everything queued, flow-controlled octets are
+    still queued at the end -/
+theorem c10_drain_needs_conn_credit (evs sfx : List (Ev α)) (side : Side) (hq : quietFor side sfx = true)
+    (hlt : ((after evs).1.dir side).connWin + grantOn side 0 sfx < queuedTotal ((after evs).1.dir side).streams) :
+    0 < queuedTotal ((after (evs ++ sfx)).1.dir side).streams := by
+  rw [show (after (evs ++ sfx)).1 = _ from Relay.runG_append_fst {} {} evs sfx]
+  exact conn_starved_of_quiet ((RInv.init (α := α)).run evs) side sfx hq hlt
+
+/-- the guard of `c10_drain_connection` is needed (a consequence of F15 / F38 / F39: a relay
+    direction that stopped reading also stops the *opposite* direction's credit).  10 octets wait on
+    stream 1 for stream credit; (a) the server sends a frame of unknown type, (b) the server opens a
+    header block and sends WINDOW_UPDATE before its CONTINUATION.  In both cases the server→client
+    reader loop ends, the WINDOW_UPDATE that covers the queue (`Grants` holds) is never processed
+    and the DATA stays queued — for good: nothing the server sends is read any more. -/
+theorem c10_drain_reader_guard_witness :
+    let upd : List (Ev Unit) := [⟨.server, fun _ => [], .windowUpdate 1 10⟩]
+    let evsA : List (Ev Unit) :=
+      [⟨.server, fun _ => [], .settings [(4, 0)]⟩,
+       ⟨.client, fun _ => [], .data 1 (List.replicate 10 ()) none true⟩,
+       ⟨.server, fun _ => [], .unknown 16⟩]
+    let evsB : List (Ev Unit) :=
+      [⟨.server, fun _ => [], .settings [(4, 0)]⟩,
+       ⟨.client, fun _ => [], .data 1 (List.replicate 10 ()) none true⟩,
+       ⟨.server, fun _ => [], .headers 1 false false {} [()] []⟩]
+    (Grants ((after evsA).1.dir .client) .client upd ∧ ¬ ((after evsA).1.dir .server).readerReady ∧
+      ((after (evsA ++ upd ++ upd)).1.dir .client).queueOf 1 = [.data 1 true (List.replicate 10 ())]) ∧
+    (Grants ((after evsB).1.dir .client) .client upd ∧ ¬ ((after evsB).1.dir .server).readerReady ∧
+      ((after (evsB ++ upd ++ upd)).1.dir .client).queueOf 1 = [.data 1 true (List.replicate 10 ())]) := by
+  decide
+
+/-- the SETTINGS_INITIAL_WINDOW_SIZE term of `Relay.streamCredit` is needed: 30 octets wait on stream
+    1 behind a stream window of 10; the WINDOW_UPDATE of 20 covers them (`Grants` holds for it
+    alone), but the receiver first lowers its initial window to 0, which takes 10 back — the suffix
+    is quiet and fully read, and the DATA stays queued. -/
+theorem c10_fair_suffix_settings_witness :
+    let evs : List (Ev Unit) :=
+      [⟨.server, fun _ => [], .settings [(4, 10)]⟩,
+       ⟨.client, fun _ => [], .data 1 (List.replicate 30 ()) none true⟩]
+    let upd : List (Ev Unit) := [⟨.server, fun _ => [], .windowUpdate 1 20⟩]
+    let sfx : List (Ev Unit) := ⟨.server, fun _ => [], .settings [(4, 0)]⟩ :: upd
+    Grants ((after evs).1.dir .client) .client upd ∧ ((after evs).1.dir .server).readerReady ∧
+    quietFor .client sfx = true ∧ (after evs).1.readOps .client sfx = sfx.map (·.op) ∧
+    (after evs).1.streamCredit .client sfx 1 = 10 ∧
+    ((after (evs ++ sfx)).1.dir .client).queueOf 1 = [.data 1 true (List.replicate 30 ())] := by
+  decide
 
 /-! ### content -/
 
@@ -315,6 +467,95 @@ theorem c10_unknown_frame_witness :
   decide
 
 /-! ### non-vacuity -/
+
+/-- `c10_drain_connection` on `H2.DrainExample` (Lemmas/H2Drain.lean): a 65 535-octet body on stream 5
+    closes the connection window, the server lowers its initial window to 25, bodies of 30 and 20
+    octets on streams 1 and 3 are queued behind the closed connection window (stream 1 also lacks 5
+    octets of stream credit); the server grants 50 on the connection in three increments and 5 on
+    stream 1 in two, interleaved -/
+example : ((after DrainExample.queued).1.dir .server).readerReady ∧ Grants ((after DrainExample.queued).1.dir .client) .client DrainExample.updates := by
+  rw [show (after DrainExample.queued).1 = _ from DrainExample.state_eq]
+  decide
+
+example : DrainedAfter DrainExample.queued DrainExample.updates .client := by
+  have h : ((after DrainExample.queued).1.dir .server).readerReady ∧ Grants ((after DrainExample.queued).1.dir .client) .client DrainExample.updates := by
+    rw [show (after DrainExample.queued).1 = _ from DrainExample.state_eq]; decide
+  exact c10_drain_connection DrainExample.queued DrainExample.updates .client h.1 h.2
+
+/-- what happens in this example, step by step: nothing fits the first two increments, stream 3 goes
+    out with the third, stream 1 with the last -/
+example :
+    (Relay.run DrainExample.state DrainExample.updates).2.map (fun x => x.2.2.back.map (fun q => (q.sid, q.fc))) =
+      [[], [], [(3, 20)], [], [(1, 30)]] := by
+  decide
+
+/-- the updates of this example minus the last one leave stream 1 queued (`c10_drain_needs_conn_credit`) -/
+example : ((after DrainExample.queued).1.dir .client).connWin + grantOn .client 0 (DrainExample.updates.take 4) <
+    queuedTotal ((after DrainExample.queued).1.dir .client).streams := by
+  rw [show (after DrainExample.queued).1 = _ from DrainExample.state_eq]
+  decide
+
+/-- … and without the second increment on stream 1 it lacks stream credit (`c10_drain_needs_stream_credit`) -/
+example :
+    grantsOnly .client (DrainExample.updates.take 3 ++ DrainExample.updates.drop 4) = true ∧
+    ((after DrainExample.queued).1.dir .client).queueOf 1 ≠ [] ∧
+    (((after DrainExample.queued).1.dir .client).buf 1).win + grantOn .client 1 (DrainExample.updates.take 3 ++ DrainExample.updates.drop 4) <
+      fcSum (((after DrainExample.queued).1.dir .client).queueOf 1) := by
+  rw [show (after DrainExample.queued).1 = _ from DrainExample.state_eq]
+  decide
+
+/-- `c10_eventual_delivery_any_fair_suffix`: a request with body and trailers on stream 1 and a body
+    on stream 3 wait for stream credit (initial window 10).  The server answers on stream 1 with a
+    continued header block and DATA, the client credits that DATA and pings; in between the server
+    grants 12 on stream 1, raises its initial window to 18 (8 more for every stream) and grants 7
+    on stream 3 — exactly what the queues need (30 = 10 + 12 + 8, 25 = 10 + 7 + 8). -/
+example :
+    let evs : List (Ev Unit) :=
+      [⟨.server, fun _ => [], .settings [(4, 10)]⟩,
+       ⟨.client, fun _ => [], .headers 1 false true {} [()] [()]⟩,
+       ⟨.client, fun _ => [], .data 1 (List.replicate 30 ()) none false⟩,
+       ⟨.client, fun _ => [], .headers 1 true true {} [()] [()]⟩,
+       ⟨.client, fun _ => [], .data 3 (List.replicate 25 ()) none true⟩]
+    let sfx : List (Ev Unit) :=
+      [⟨.server, fun _ => [], .headers 1 false false {} [()] []⟩,
+       ⟨.server, fun _ => [], .continuation 1 true [()] [(), ()]⟩,
+       ⟨.client, fun _ => [], .windowUpdate 1 100⟩,
+       ⟨.server, fun _ => [], .windowUpdate 1 12⟩,
+       ⟨.server, fun _ => [], .data 1 (List.replicate 7 ()) none false⟩,
+       ⟨.client, fun _ => [], .ping false 1⟩,
+       ⟨.server, fun _ => [3, 1], .settings [(4, 18)]⟩,
+       ⟨.server, fun _ => [], .ping true 1⟩,
+       ⟨.server, fun _ => [], .windowUpdate 3 7⟩]
+    quietFor .client sfx = true ∧
+    Sufficient ((after evs).1.dir .client) ((after evs).1.connCredit .client sfx) ((after evs).1.streamCredit .client sfx) ∧
+    ((after evs).1.dir .client).queueOf 1 = [.data 1 false (List.replicate 30 ()), .headers 1 true {} [[()]] 1] ∧
+    ((after evs).1.dir .client).queueOf 3 = [.data 3 true (List.replicate 25 ())] := by
+  decide
+
+/-- `c10_eventual_delivery_interleaved`: the same queues; the server's answer (continued header block,
+    DATA), the client's credit for it and a PING exchange are interleaved with WINDOW_UPDATE frames
+    of 12 + 8 on stream 1 and 15 on stream 3 -/
+example :
+    let evs : List (Ev Unit) :=
+      [⟨.server, fun _ => [], .settings [(4, 10)]⟩,
+       ⟨.client, fun _ => [], .headers 1 false true {} [()] [()]⟩,
+       ⟨.client, fun _ => [], .data 1 (List.replicate 30 ()) none false⟩,
+       ⟨.client, fun _ => [], .headers 1 true true {} [()] [()]⟩,
+       ⟨.client, fun _ => [], .data 3 (List.replicate 25 ()) none true⟩]
+    let sfx : List (Ev Unit) :=
+      [⟨.server, fun _ => [], .headers 1 false false {} [()] []⟩,
+       ⟨.server, fun _ => [], .continuation 1 true [()] [(), ()]⟩,
+       ⟨.client, fun _ => [], .windowUpdate 1 100⟩,
+       ⟨.server, fun _ => [], .windowUpdate 1 12⟩,
+       ⟨.server, fun _ => [], .data 1 (List.replicate 7 ()) none false⟩,
+       ⟨.client, fun _ => [], .ping false 1⟩,
+       ⟨.server, fun _ => [3, 1], .windowUpdate 3 15⟩,
+       ⟨.server, fun _ => [], .settings [(3, 100), (5, 20000)]⟩,
+       ⟨.server, fun _ => [], .ping true 1⟩,
+       ⟨.server, fun _ => [], .windowUpdate 1 8⟩]
+    ((after evs).1.dir .server).readerReady ∧ fairFrom .client none sfx = true ∧
+    Sufficient ((after evs).1.dir .client) (grantOn .client 0 sfx) (fun s => grantOn .client s sfx) := by
+  decide
 
 /-- a schedule in which no header block is ever queued: request headers, a body that fits, trailers -/
 example : NeverQueuesHeaders ({} : Relay Unit)
